@@ -359,8 +359,12 @@ def _chain(case):
         for _ in range(gspec["refine"]):
             if len(grid.axes[0]) > 700:
                 raise GridRejected("axis larger than the per-case bound")
-            earlier = MarkovChainProcess(model=model, method=SamplingMethod[case["method"]], grid=grid)
-            earlier.sampling.sample_with_u(0.37) if hasattr(earlier.sampling, "sample_with_u") else None
+            try:
+                earlier = MarkovChainProcess(model=model, method=SamplingMethod[case["method"]], grid=grid)
+                earlier.sampling.sample_with_u(0.37) if hasattr(earlier.sampling, "sample_with_u") else None
+            except ValueError as e:
+                if not (case["method"] == "TABLE" and "array of 0s" in str(e)):
+                    raise  # (the table method's documented rejection of a vector without residual: no earlier chain then)
             grid.number_of_points()
             grid.refine()
     else:
